@@ -72,7 +72,30 @@ fn gen_log_world(seed: u64, idx: usize) -> LogWorldScenario {
             outs.insert(k, OutStep { fd: 1, hex: hex(format!("{}@{} held-open ", cf.command, cf.target).as_bytes()), pause_ms: 0 });
             outs.insert(k + 1, OutStep { fd: 1, hex: hex(b"after the pause\n"), pause_ms: 650 });
         }
-        script.behav.push(Behav { command: cf.command.clone(), target: cf.target.clone(), outs, code: 0 });
+        script.behav.push(Behav { command: cf.command.clone(), target: cf.target.clone(), outs, code: 0, exit_pause_ms: 0 });
+    }
+    if rng.chance(1, 12) {
+        // one task writes a poorly compressible volume beyond one zstd block on one stream
+        let bi = rng.below(script.behav.len());
+        let tag = format!("{}@{}", script.behav[bi].command, script.behav[bi].target);
+        let fd = if rng.chance(1, 2) { 1u8 } else { 2 };
+        let chunks = rng.range(3, 8);
+        for k in 0..chunks {
+            let mut v = Vec::new();
+            let total = 40 * 1024 + rng.below(60 * 1024);
+            let mut n = 0;
+            while v.len() < total {
+                n += 1;
+                v.extend_from_slice(format!("{} fd{} vol{}.{} ", tag, fd, k, n).as_bytes());
+                let long = rng.chance(1, 10);
+                let ll = 30 + rng.below(if long { 140_000 } else { 160 });
+                for _ in 0..ll {
+                    v.push(b"ABCDEFGHIJKLMNOPQRSTUVWXYZabcdefghijklmnopqrstuvwxyz0123456789+/"[(rng.next_u64() & 63) as usize]);
+                }
+                v.push(b'\n');
+            }
+            script.behav[bi].outs.push(OutStep { fd, hex: hex(&v), pause_ms: 0 });
+        }
     }
     script.strategy = *rng.pick(&[Strategy::Uniform, Strategy::Uniform, Strategy::PlanOrder, Strategy::Reverse, Strategy::HoldM]);
     script.sched_seed = rng.next_u64();
